@@ -592,6 +592,26 @@ def header_count_rule(o, f, body, sites):
                   expected='6 / 3', actual='%s / %s' % vals)
     c = counted[list(counted)[0]]
     o.eq('header-count::per-record', c, aff(c.value), const(1), 'removed-station count per matching SOLUTION/EPOCHS record', 'each removed solution takes its parameters once')
+    # which block is counted: one record per *solution* (SOLUTION/EPOCHS; SITE/ID lists a station once however many solutions it has)
+    loop = None
+    for lp in [x for x in walk_stmts(body) if isinstance(x, ast.For)]:
+        if any(x is c for x in walk_stmts(lp.body)):
+            loop = lp
+    src = None
+    if loop is not None and isinstance(loop.iter, ast.Name):
+        for a_ in _assignments(f.node, loop.iter.id, before=loop.lineno):
+            if isinstance(a_.value, ast.Call) and isinstance(a_.value.func, ast.Name):
+                src = a_.value.func.id
+    if src is None:
+        o.unk('header-count::block', c, 'the block over which removed stations are counted was not identified')
+    elif src == 'read_sinex_solution_epochs_block':
+        o.ok('header-count::block', loop, 'removed parameters are counted per SOLUTION/EPOCHS record (one per station solution)')
+    elif src == 'read_sinex_solution_estimate_block':
+        o.unk('header-count::block', loop, 'removed parameters are counted over the estimate block (not the form checked here)')
+    else:
+        o.bad('header-count::block', loop, 'removed stations are counted over %s: SITE/ID lists a station once, whereas it has one set of parameters per solution (SOLUTION/EPOCHS): '
+              'with a station that has two solutions the header count stays too high by 3 (6 with velocities)' % src,
+              expected='read_sinex_solution_epochs_block', actual=src)
     osb = None
     # old count: header[60:65] possibly through a name
     if isinstance(old, ast.Name):
